@@ -329,6 +329,37 @@ func c05HTTPHead(method, host string, extra int, seed uint64) []byte {
 	return b.Bytes()
 }
 
+var c05Methods = []string{"get", "post", "head", "put", "delete", "options", "patch", "connect", "trace"}
+
+// c05MethodToken draws an HTTP method spelled in lower or mixed case (at least one
+// lower-case letter): it passes handleConn's case-insensitive prefix gate.
+func c05MethodToken(t *rapid.T) string {
+	w := []byte(rapid.SampledFrom(c05Methods).Draw(t, "methodWord"))
+	switch rapid.IntRange(0, 2).Draw(t, "methodCase") {
+	case 1: // Title
+		w[0] -= 32
+	case 2: // mixed, last letter stays lower
+		for i := 0; i < len(w)-1; i++ {
+			if rapid.Bool().Draw(t, "methodUp") {
+				w[i] -= 32
+			}
+		}
+	}
+	return string(w)
+}
+
+// c05MethodWordFlight: a non-HTTP protocol whose first token happens to be an HTTP
+// method word (memcached `get key`, beanstalkd `put 0 0 10 5`), followed by protocol bytes.
+func c05MethodWordFlight(t *rapid.T, seed uint64) []byte {
+	tok := c05MethodToken(t)
+	line := rapid.SampledFrom([]string{" key_%x\r\n", " 0 0 10 5\r\nhello\r\n", " k%x 0 0 3\r\nabc\r\n", " *\r\n"}).Draw(t, "wordArgs")
+	if strings.Contains(line, "%x") {
+		line = fmt.Sprintf(line, seed&0xffff)
+	}
+	out := append([]byte(tok+line), c05Fill(seed^0x4d, rapid.IntRange(16, 300).Draw(t, "wordBody"))...)
+	return out
+}
+
 // DNS-over-TCP framed *response* (QR set): handleTCPDnsFastPath must decline it.
 func c05DNSResponseFrame(seed uint64) []byte {
 	m := new(dnsmessage.Msg)
@@ -625,7 +656,7 @@ func c05GenScn(t *rapid.T, o c05GenOpt, excludedCase func(id string)) *c05Scn {
 	slowCut := 0 // bytes of the first flight sent before the long pause (slow-prefix)
 	switch s.Stack {
 	case c05StackPort53:
-		kinds := []string{"dns-too-small", "dns-response", "dns-garbage", "dns-oversize", "tls"}
+		kinds := []string{"dns-too-small", "dns-response", "dns-garbage", "dns-oversize", "tls", "method-word"}
 		if s.Open == c05OpenSlow {
 			kinds = []string{"dns-one-byte", "dns-short-frame", "ssh-banner", "tls-short"}
 		}
@@ -647,6 +678,9 @@ func c05GenScn(t *rapid.T, o c05GenOpt, excludedCase func(id string)) *c05Scn {
 		case "dns-oversize": // declared length beyond bufio's 4096: ErrBufferFull once 4096 bytes are in
 			first = c05DNSGarbageFrame(rapid.IntRange(4095, 9000).Draw(t, "oversize"), seed)
 			must = []int{1, 2, 4095, 4096, 4097}
+		case "method-word": // two letters as a length: far beyond the buffer
+			first = c05MethodWordFlight(t, seed)
+			must = []int{1, 2, 3, 4, 16, 17}
 		case "tls": // 0x1603 = 5635 > 4096
 			first = c05ClientHello("c05.example", rapid.IntRange(4200, 6000).Draw(t, "helloLen"), seed)
 			must = []int{1, 2, 5, 4096}
@@ -664,7 +698,7 @@ func c05GenScn(t *rapid.T, o c05GenOpt, excludedCase func(id string)) *c05Scn {
 			slowCut = len(first)
 		}
 	case c05StackSniff:
-		kinds := []string{"tls", "tls", "http", "random", "tls-bad", "http-nohost"}
+		kinds := []string{"tls", "tls", "http", "random", "tls-bad", "http-nohost", "http-lower", "method-word", "method-word"}
 		if s.Open == c05OpenSlow {
 			kinds = []string{"tls", "tls", "http-short"}
 		}
@@ -688,8 +722,14 @@ func c05GenScn(t *rapid.T, o c05GenOpt, excludedCase func(id string)) *c05Scn {
 		case "http-nohost":
 			first = []byte("GET / HTTP/1.0\r\nAccept: */*\r\n\r\n")
 			must = []int{4, 16, 17}
+		case "http-lower": // a real HTTP head whose method is spelled in lower / mixed case
+			first = c05HTTPHead(c05MethodToken(t), fmt.Sprintf("h%x.c05.example", seed&0xfff), rapid.SampledFrom([]int{0, 10, 600}).Draw(t, "hpad"), seed)
+			must = []int{1, 3, 4, 7, 8, 15, 16, 17, len(first) - 1}
+		case "method-word":
+			first = c05MethodWordFlight(t, seed)
+			must = []int{1, 3, 4, 7, 8, 15, 16, 17}
 		case "http-short": // whole first flight fits the 16-byte prefetch
-			first = []byte("GET /\r\n")
+			first = []byte(rapid.SampledFrom([]string{"GET /\r\n", "get k\r\n", "put 0 0 1 1\r\n", "Head /\r\n"}).Draw(t, "shortFlight"))
 			slowCut = len(first)
 		case "random":
 			first = c05Fill(seed, rapid.IntRange(1, 600).Draw(t, "rndLen"))
@@ -697,8 +737,12 @@ func c05GenScn(t *rapid.T, o c05GenOpt, excludedCase func(id string)) *c05Scn {
 			must = []int{1, 15, 16, 17}
 		}
 	default:
-		s.FirstKind = rapid.SampledFrom([]string{"tls", "http", "random", "none"}).Draw(t, "firstKind")
+		s.FirstKind = rapid.SampledFrom([]string{"tls", "http", "random", "none", "http-lower", "method-word"}).Draw(t, "firstKind")
 		switch s.FirstKind {
+		case "http-lower":
+			first = c05HTTPHead(c05MethodToken(t), "p.c05.example", 0, seed)
+		case "method-word":
+			first = c05MethodWordFlight(t, seed)
 		case "tls":
 			first = c05ClientHello("p.c05.example", 517, seed)
 		case "http":
